@@ -574,8 +574,10 @@ pub fn full_decaps(
         Encapsulations::HEncs(encs) => {
             for (E, F) in encs {
                 for (right, secret_set) in msk.secrets.iter() {
-                    for (is_activated, secret) in secret_set {
-                        if *is_activated {
+                    // A right is activated if its latest secret is: older
+                    // secrets of a deactivated right cannot be re-encrypted for.
+                    if secret_set.front().is_some_and(|(is_activated, _)| *is_activated) {
+                        for (_, secret) in secret_set {
                             if let RightSecretKey::Hybridized { sk, dk } = secret {
                                 let mut K1 = ElGamal::session_key(sk, &A)?;
                                 let K2 = MlKem::dec(dk, E)?;
@@ -589,8 +591,10 @@ pub fn full_decaps(
         Encapsulations::CEncs(encs) => {
             for F in encs {
                 for (right, secret_set) in msk.secrets.iter() {
-                    for (is_activated, secret) in secret_set {
-                        if *is_activated {
+                    // A right is activated if its latest secret is: older
+                    // secrets of a deactivated right cannot be re-encrypted for.
+                    if secret_set.front().is_some_and(|(is_activated, _)| *is_activated) {
+                        for (_, secret) in secret_set {
                             let sk = match secret {
                                 RightSecretKey::Hybridized { sk, .. } => sk,
                                 RightSecretKey::Classic { sk } => sk,
